@@ -42,10 +42,10 @@ def ser (r : Record) : List Byte :=
 def faultName : Fault → String
   | .errNameLen => "err:namelen" | .errQualLen => "err:quallen" | .errUnexpectedEOF => "err:unexpectedEOF"
   | .errBlockSize => "err:blocksize" | .errReadNameLen => "err:readnamelen" | .errSeqLen => "err:seqlen"
-  | .errRefRange => "err:refrange" | .errMateRefRange => "err:materefrange" | .errAuxNoZero => "err:auxnozero"
-  | .errAuxArrayLen => "err:auxarraylen" | .errAuxType => "err:auxtype" | .panicAuxType => "panic:auxtype"
-  | .panicConsume => "panic:consume" | .panicAuxSlice => "panic:auxslice" | .panicAuxArray => "panic:auxarray"
-  | .hangAuxArray => "hang:auxarray" | .fuel => "model:fuel"
+  | .errRefRange => "err:refrange" | .errMateRefRange => "err:materefrange" | .errAuxTruncated => "err:auxtruncated"
+  | .errAuxNoZero => "err:auxnozero" | .errAuxZeroInTag => "err:auxzerointag" | .errAuxArrayHdr => "err:auxarrayhdr"
+  | .errAuxArrayElem => "err:auxarrayelem" | .errAuxArrayLen => "err:auxarraylen" | .errAuxType => "err:auxtype"
+  | .panicAuxType => "panic:auxtype" | .fuel => "model:fuel"
 
 def cigarOfBytes : List Byte → List (BitVec 32) := readCigarOps
 
